@@ -123,6 +123,29 @@ CHECKS['C20'] = (
     'schedules. Built by a sub-agent from DESIGN.md.',
     'DESIGN.md §3 C20')
 
+CHECKS['C04'] = (
+    'E1-bfs', 'model_checking',
+    'explicit-state enumeration of ALL statement histories (no state merging) on the real interpreter with warm caches '
+    'vs. a fresh interpreter loaded with a copy of the pre-state (differential) + frame condition',
+    'Every sequence of up to 3 (quick) / 4 (thorough, reduced alphabet at depth 4) statements over an alphabet of 33 '
+    'colliding texts (assignments, amend / amend-in-depth, sub-list producing verbs, function definitions and calls, '
+    'repeated texts, module switches, dictionary literals, compiled expressions, a gradient of a literal). For every '
+    'statement: interpreter A (caches warm) vs. fresh interpreter B loaded with a deep copy of A\'s pre-state; same '
+    'result, same post-state, and no variable other than the assigned one changes.',
+    'A and B share a process (module-level state would be invisible); NumPy view relations are deliberately not '
+    'carried into B. Built by a sub-agent from DESIGN.md.',
+    'DESIGN.md §3 C04')
+CHECKS['C19'] = (
+    'E1-bfs', 'model_checking',
+    'explicit-state BFS over table operation histories on the real Table/.db vs. a list-of-rows reference model',
+    'All histories up to 4 (quick) / 5 (thorough) operations after creation (single and batch inserts incl. same key '
+    'twice and existing keys, column reads, count, schema, print, index on one/two columns, reset index, add column, '
+    'SQL select/count/sum) on tables of 1-3 columns; every Klong-level result is compared with the model after every '
+    'step; states merged on model + real fields incl. the insert buffer and column dtypes.',
+    'pandas/duckdb are environment; numbers compared by value (unindexed commits homogenise dtypes). Built by a '
+    'sub-agent from DESIGN.md.',
+    'DESIGN.md §3 C19')
+
 NOT_YET ='check not built yet in this session (work in progress; see DESIGN.md for the planned exploration)'
 
 ALL = ['C%02d' % i for i in range(1, 21)]
